@@ -199,6 +199,16 @@ std::string run(const std::vector<std::string> & a)
     feeder.join(); rerr.join();
     std::string ex = hang ? "HANG" : WIFEXITED(status) ? std::to_string(WEXITSTATUS(status)) : "sig" + std::to_string(WTERMSIG(status));
     std::string after = snapshot(dir);
+    // the child may have ended without waiting for the server (a left-over reply answered its QUIT): let the server read
+    // what the child wrote before the server's view is taken
+    for (int i = 0; i < 400; i++)
+    {
+        int fd = srv.cur_fd; int n = 0;
+        if (fd < 0) break;                       // the server has seen the end of the connection
+        bool unread = ::ioctl(fd, FIONREAD, &n) == 0 && n > 0;
+        if (!unread && srv.idle) break;
+        usleep(5000);
+    }
     { peer_scope ps; srv.core.peer.finish(); }
     std::string cmds; int conns = 0;
     {
